@@ -249,7 +249,15 @@ RecvViol(m, e, f) ==
       \* transmission goes to the master that owns the key's slot (C04; C05: the proxy and the cluster agree on the slot)
       v04 == IF ~resend /\ ~m.topoSeen /\ f[3] \in DOMAIN HomeNode /\ e.n \in MasterNames /\ e.n # HomeNode[f[3]]
              THEN {<<"C04", e.c, e.i, "request-at-wrong-node">>} ELSE {}
-  IN v10 \cup v10c \cup v13 \cup v06 \cup v17 \cup v04
+      \* Requests of one client for one slot that the same node redirected (once) to this node are re-sent in the order
+      \* in which that node answered them, i.e. the order in which the client sent them.
+      hist(g) == At(m.redir, g, <<>>)
+      v10d == IF resend /\ Len(hist(f)) = 1 /\ hist(f)[1].to = e.n
+                 /\ \E k \in DOMAIN log : LET x == log[k] g == <<x.c, x.i, x.s>> IN
+                       /\ x.k # "asking" /\ x.c = e.c /\ x.s = f[3] /\ x.i > e.i /\ x.resend /\ x.conn = e.conn
+                       /\ Len(hist(g)) = 1 /\ hist(g)[1].from = hist(f)[1].from /\ hist(g)[1].to = e.n
+              THEN {<<"C10", e.c, e.i, "redirected-requests-reordered">>} ELSE {}
+  IN v10 \cup v10c \cup v10d \cup v13 \cup v06 \cup v17 \cup v04
 
 -----------------------------------------------------------------------------
 AddViol(m, vs) == [m EXCEPT !.viol = @ \cup vs]
